@@ -19,6 +19,7 @@ BUDGET_S = {'quick': 240, 'thorough': 3000}
 
 KINDS_QUICK = ('S', 'F3', 'E', 'X')
 KINDS_FULL = ('S', 'F3', 'F2C', 'C', 'E', 'X', 'N')
+RX_KINDS = ('RXX', 'RXN', 'RXE')
 
 
 def bounds(tier):
@@ -35,6 +36,9 @@ def make_units(tier):
         for first in alpha:
             for second in alpha:
                 units.append({'flavour': flavour, 'prefix': [list(first), list(second)], 'n': 3, 'kinds': list(kinds), 'prio': True})
+        # receptions on the same streams (peer CANCEL / REQUEST_N / ERROR handled while frames are queued or half sent)
+        for first in [(k, sid) for sid in (2, 4) for k in RX_KINDS]:
+            units.append({'flavour': flavour, 'prefix': [list(first)], 'n': 3 if tier == 'quick' else 4, 'kinds': ['S', 'F3', 'N'], 'prio': False, 'rx': True})
         if tier == 'thorough' and flavour in ('tcp', 'msg'):
             alpha4 = [(k, s) for s in (2, 4) for k in KINDS_QUICK]
             for a, b_ in itertools.product(alpha4, alpha4):
@@ -73,16 +77,29 @@ def expected_content(i, kind):
     return {'S': (t * 5, t * 2), 'F3': (t * 100, t * 30), 'F2C': (t * 80, b'')}.get(kind)
 
 
+def has_rx(ops):
+    return any(k.startswith('RX') for k, _ in ops)
+
+
 def run_schedule(flavour, ops, sched):
     """sched: list of 'e' (enqueue next op) / 't' (let the blocked write finish). Returns (solo, enabled-after)."""
     s = Solo('server', flavour, fragment_size_bytes=64)
+    if has_rx(ops):
+        # streams 2 and 4 are real channels opened by this endpoint, so that what the peer sends on them runs the handlers
+        from mc.app import RecPublisher, RecSubscriber
+        for sid in (2, 4):
+            s.sock.request_channel(P(b'q'), RecPublisher(s.w, s.ep, 'pub%d' % sid)).initial_request_n(5).subscribe(RecSubscriber(s.w, s.ep, 'sub%d' % sid))
+        s.settle()
     s.out.always_block = True
     s.mark = len(s.w.log)
     nxt = 0
     for c in sched:
         if c == 'e':
             i, (kind, sid) = nxt, ops[nxt]
-            enqueue(s.sock, i, kind, sid)
+            if kind.startswith('RX'):
+                s.peer({'RXX': R.enc_cancel(sid), 'RXN': R.enc_request_n(sid, 3), 'RXE': R.enc_error(sid, 0x201, b'peer')}[kind])
+            else:
+                enqueue(s.sock, i, kind, sid)
             nxt += 1
         else:
             s.out.block.set_result(None)
@@ -128,18 +145,24 @@ def check(flavour, ops, s, sched):
     frames = [f for f in s.sent(s.mark)]
     srcs = attribute(frames, ops)
     tag = flavour
+    rx = has_rx(ops)
 
     def bad(rule, ctx, detail):
         out.append(('C05.' + rule, 'C05.%s | %s' % (rule, ctx), '%s; ops=%s wire=%s' % (detail, ops, [(repr(f), sr) for f, sr in zip(frames, srcs)])))
 
     for sid in (2, 4):
         mine = [(f, sr) for f, sr in zip(frames, srcs) if f.sid == sid]
-        want = [i for i, (k, s_) in enumerate(ops) if s_ == sid and k != 'PRIO']
+        want = [i for i, (k, s_) in enumerate(ops) if s_ == sid and k != 'PRIO' and not k.startswith('RX')]
         first_seen = []
         for f, sr in mine:
             if sr not in first_seen:
                 first_seen.append(sr)
-        if first_seen != want:
+        if rx:
+            # the peer cancelled / failed the stream at some point: frames not yet started may legitimately be dropped; what
+            # does reach the wire keeps its order, and a frame whose first fragment went out is completed
+            if first_seen != [i for i in want if i in first_seen]:
+                bad('per-stream-order', '+'.join(ops[i][0] for i in want) + ' | with-receptions', 'stream %d: sources reached the wire in order %s, enqueued %s' % (sid, first_seen, want))
+        elif first_seen != want:
             kinds = '+'.join(ops[i][0] for i in want)
             bad('per-stream-order', '%s' % kinds, 'stream %d: sources reached the wire in order %s, enqueued %s' % (sid, first_seen, want))
         # contiguity
@@ -165,11 +188,15 @@ def check(flavour, ops, s, sched):
         except Exception as e:
             bad('receiver-reassembly', 'exception-%s' % type(e).__name__, 'reassembly raised %r' % e)
         exp = [expected_content(i, ops[i][0]) + (ops[i][0] == 'F2C',) for i in want if expected_content(i, ops[i][0])]
-        if got != exp:
+        if rx:
+            it = iter(exp)
+            if not all(any(g == e for e in it) for g in got):
+                bad('receiver-reassembly', 'payloads-differ | with-receptions', 'stream %d: receiver reassembled %s, enqueued %s' % (
+                    sid, [(len(a), len(b_), c) for a, b_, c in got], [(len(a), len(b_), c) for a, b_, c in exp]))
+        elif got != exp:
             bad('receiver-reassembly', 'payloads-differ', 'stream %d: receiver reassembled %s, enqueued %s' % (
                 sid, [(len(a), len(b_), c) for a, b_, c in got], [(len(a), len(b_), c) for a, b_, c in exp]))
-    n_expected = sum({'S': 1, 'F3': 3, 'F2C': 2, 'C': 1, 'E': 1, 'X': 1, 'N': 1, 'PRIO': 1}[k] for k, _ in ops)
-    if len(frames) < len(ops):
+    if not rx and len(frames) < len(ops):
         bad('drained', 'frames-missing', 'only %d frames for %d operations' % (len(frames), len(ops)))
     return out
 
@@ -214,6 +241,15 @@ def run_unit(unit, part):
     alpha = [(k, s) for s in (2, 4) for k in kinds] + ([('PRIO', 0)] if unit.get('prio') else [])
     pre = [tuple(x) for x in unit['prefix']]
     rest = unit['n'] - len(pre)
+    if unit.get('rx'):
+        # the unit's reception at every position among the enqueues
+        for tail in itertools.product(alpha, repeat=rest):
+            if not any(k == 'F3' for k, _ in tail):
+                continue
+            for pos in range(len(tail) + 1):
+                explore(unit['flavour'], list(tail[:pos]) + pre + list(tail[pos:]), part)
+        part.sample({'flavour': unit['flavour'], 'reception': unit['prefix'], 'enqueues': rest}, limit=1)
+        return
     for tail in itertools.product(alpha, repeat=rest):
         ops = pre + list(tail)
         if not any(k in ('F3', 'F2C') for k, _ in ops):
